@@ -17,104 +17,158 @@ SIMU = "EasyFEA.Simulations._simu._Simu"
 
 
 def beam_lineload_rule(ctx):
-    """R9.7: Beam.add_lineLoad (Euler-Bernoulli): Lagrange unknowns are forwarded to the generic integrator with their
-    own values; each Hermitian unknown is integrated with its own value against the beam N row of that unknown."""
+    """R9.7: Beam.add_lineLoad (Euler-Bernoulli).  The displacement of the beam in GLOBAL axes is u_g = P u_l with
+    u_l = N_l(xi) d_e the local interpolation (Lagrange axial row, Hermitian transverse / slope rows): a load of
+    intensity f_g along the global unknown g therefore produces, on element dof j,
+        F_j = sum_p wJ_p f_g(x_p) sum_l P[g, l] N_beam_local[p, l, j]      (block-wise: translations, rotations).
+    add_lineLoad is interpreted on one element whose frame P is symbolic (an inclined member) and whose local axial
+    row is the Lagrange interpolation; every route it takes (generic Lagrange integrator, Hermitian path) is summed per
+    element dof and compared with that expression; each unknown must carry its own intensity."""
     repo = ctx.repo
-    r = ctx.rule("R9.7", "Euler-Bernoulli line load: every unknown is integrated with its own intensity (value list and unknown list stay aligned through the Lagrange/Hermitian split); Hermitian forces are sum_p wJ_p f_p N_beam[p, row(unknown), :] paired with the element assembly dofs", min_instances=4)
+    r = ctx.rule("R9.7", "Euler-Bernoulli line load on a member with an arbitrary frame: the nodal load of a global component g is sum_p wJ_p f_g(x_p) sum_l P[g,l] N_local[p,l,:] (whatever route - generic integrator or Hermitian path - each unknown takes), each unknown with its own intensity, paired with the element assembly dofs", min_instances=8)
     bcls = repo.cls("EasyFEA.Simulations._beam.Beam")
     f = bcls.methods["add_lineLoad"]
     eb = repo.cls("EasyFEA.FEM.Elems._beam.EULER_BERNOULLI2")
     nPe, nPg, dof_n = 2, 2, 3
-    Nb = [[[Poly.var(f"B{p}_{rr}_{j}") for j in range(dof_n * nPe)] for rr in range(dof_n)] for p in range(nPg)]
+    n = dof_n * nPe
     Nl = [[Poly.var(f"N{p}{m}") for m in range(nPe)] for p in range(nPg)]
+    # local rows: 0 = axial (Lagrange on the x dofs), 1 = transverse v (Hermitian), 2 = slope rz (Hermitian derivative)
+    Nloc = [[[Poly() for _ in range(n)] for _ in range(dof_n)] for _ in range(nPg)]
+    for p in range(nPg):
+        for m in range(nPe):
+            Nloc[p][0][m * dof_n] = Nl[p][m]
+        for rr in (1, 2):
+            for m in range(nPe):
+                for c in (1, 2):
+                    Nloc[p][rr][m * dof_n + c] = Poly.var(f"H{p}_{rr}_{m}{c}")
     wJ = [Poly.var(f"w{p}") for p in range(nPg)]
     conn = [3, 5]
     allunk = ["x", "y", "rz"]
-    for kind in ("nodal", "constant"):
-        for unknowns in (["x", "y"], ["y", "x"], ["rz", "y"]):
-            log = {}
-            group = XObj(eb, dict(
-                nPe=nPe, connect=XArray((1, nPe), conn),
-                Get_Elements_Nodes=lambda nodes, exclusively=False, **k: (log.update(exclusively=exclusively), XArray((1,), [0]))[1],
-                Get_GaussCoordinates_e_pg=lambda mt, el=None: Opaque("coord"),
-                Get_weightedJacobian_e_pg=lambda mt=None: XArray((1, nPg), list(wJ)),
-                Get_beam_N_e_pg=lambda bs, *a, **k: XArray((1, nPg, dof_n, dof_n * nPe), [Nb[p][rr][j] for p in range(nPg) for rr in range(dof_n) for j in range(dof_n * nPe)]),
-                Get_N_pg=lambda mt=None: XArray((nPg, 1, nPe), [Nl[p][m] for p in range(nPg) for m in range(nPe)]),
-                _Get_assembly_e=lambda connect, d: XArray((1, dof_n * nPe), [Lbl("asm", j) for j in range(dof_n * nPe)]),
-            ))
-            obj = XObj(bcls, dict(
-                structure=SimpleNamespace(dim=2, dof_n=dof_n), problemType=Opaque("pt"), mesh=SimpleNamespace(Nn=8, groupElem=group),
-                _Check_dofs=lambda *a, **k: None, Get_unknowns=lambda pt=None: list(allunk),
-                _Bc_Add_Neumann=lambda pt, nodes, vals, dofs, unk, desc="": log.update(neumann=(nodes, vals, dofs, unk)),
-            ))
-            nodes_arg = XArray((3,), [7, 5, 3])
-            if kind == "nodal":
-                g = {u: [Poly.var(f"g{u}7"), Poly.var(f"g{u}5"), Poly.var(f"g{u}3")] for u in unknowns}
-                vals = [XArray((3,), g[u]) for u in unknowns]
-            else:
-                cst = {u: 7 + 4 * k for k, u in enumerate(unknowns)}
-                vals = [cst[u] for u in unknowns]
-            I = Interp(repo, extra_builtins={"callable": callable})
-
-            def hook(fn, args, kwargs, log=log):
-                if isinstance(fn, FuncInfo) and fn.name == "add_lineLoad" and fn.cls is not None and fn.cls is not bcls:
-                    log.setdefault("super", []).append((args[1], args[2]))
-                    return None
-                return NotImplemented
-
-            I.call_hook = hook
-            tag = f"{kind}:{','.join(unknowns)}"
-            r.instance(fn=f.qualname)
-            try:
-                I.call_function(f, [nodes_arg, vals, list(unknowns)], self_obj=obj)
-            except XRaise as e:
-                r.fail(f.qualname, tag, f.file, f.lineno, "Beam.add_lineLoad", f"{tag}: {e}")
-                continue
-            bad = None
-            lag = [u for u in unknowns if u in ("x", "rx")]
-            her = [u for u in unknowns if u not in ("x", "rx")]
-            sup = log.get("super", [])
-            if lag:
-                if len(sup) != 1 or list(sup[0][1]) != lag:
-                    bad = f"Lagrange unknowns {lag} are forwarded as {[list(s[1]) for s in sup]}"
+    frames = {
+        "aligned": [[Poly.const(1) if a == b else Poly() for b in range(3)] for a in range(3)],
+        "inclined": [[Poly.var("c"), -Poly.var("s"), Poly()], [Poly.var("s"), Poly.var("c"), Poly()], [Poly(), Poly(), Poly.const(1)]],
+    }
+    for frame_name, P in frames.items():
+        # what the element class hands out: N_local . P_block^T-free form  u_l = N_beam d_glob  with  N_beam = N_local . (P^T blocks)
+        # (B and N act on local dofs: d_local = P^T d_global at every node)
+        Nbeam = [[[sum((Nloc[p][rr][3 * (j // 3) + k] * P[j % 3][k] for k in range(3)), Poly()) for j in range(n)] for rr in range(dof_n)] for p in range(nPg)]
+        for kind in ("nodal", "constant"):
+            for unknowns in (["x", "y"], ["y", "x"], ["rz", "y"], ["y"]):
+                log = {}
+                beam = SimpleNamespace(name="beam0", _Calc_P=lambda P=P: XArray((3, 3), [P[a][b] for a in range(3) for b in range(3)]))
+                group = XObj(eb, dict(
+                    nPe=nPe, Ne=1, connect=XArray((1, nPe), conn),
+                    Get_Elements_Nodes=lambda nodes, exclusively=False, **k: (log.update(exclusively=exclusively), XArray((1,), [0]))[1],
+                    Get_Elements_Tag=lambda name: XArray((1,), [0]),
+                    Get_GaussCoordinates_e_pg=lambda mt, el=None: Opaque("coord"),
+                    Get_weightedJacobian_e_pg=lambda mt=None: XArray((1, nPg), list(wJ)),
+                    Get_beam_N_e_pg=lambda bs, *a, **k: XArray((1, nPg, dof_n, n), [Nbeam[p][rr][j] for p in range(nPg) for rr in range(dof_n) for j in range(n)]),
+                    Get_N_pg=lambda mt=None: XArray((nPg, 1, nPe), [Nl[p][m] for p in range(nPg) for m in range(nPe)]),
+                    _Get_assembly_e=lambda connect, d: XArray((1, n), [Lbl("asm", j) for j in range(n)]),
+                ))
+                obj = XObj(bcls, dict(
+                    structure=SimpleNamespace(dim=2, dof_n=dof_n, beams=[beam]), problemType=Opaque("pt"), mesh=SimpleNamespace(Nn=8, groupElem=group),
+                    _Check_dofs=lambda *a, **k: None, Get_unknowns=lambda pt=None: list(allunk),
+                    _Bc_Add_Neumann=lambda pt, nodes, vals, dofs, unk, desc="": log.setdefault("neumann", []).append((nodes, vals, dofs, unk)),
+                ))
+                nodes_arg = XArray((3,), [7, 5, 3])
+                if kind == "nodal":
+                    g = {u: [Poly.var(f"g{u}7"), Poly.var(f"g{u}5"), Poly.var(f"g{u}3")] for u in unknowns}
+                    vals = [XArray((3,), g[u]) for u in unknowns]
                 else:
-                    for k, u in enumerate(lag):
-                        v = sup[0][0][k]
-                        want = vals[unknowns.index(u)]
-                        same = (v is want) or (not isinstance(v, XArray) and not isinstance(want, XArray) and v == want) or (isinstance(v, XArray) and isinstance(want, XArray) and list(v.data) == list(want.data))
-                        if not same:
-                            bad = f"unknown '{u}' is forwarded to the generic integrator with the intensity of another unknown"
-            elif sup:
-                bad = f"no Lagrange unknown but the generic integrator is called with {[list(s[1]) for s in sup]}"
-            neu = log.get("neumann")
-            if bad is None and her:
-                if neu is None:
-                    bad = "Hermitian unknowns produce no Neumann condition"
-                else:
-                    _, nv, nd, nu = neu
+                    cst = {u: 7 + 4 * k for k, u in enumerate(unknowns)}
+                    vals = [cst[u] for u in unknowns]
+
+                def intensity(u, p):
+                    if kind == "nodal":
+                        gm = {7: g[u][0], 5: g[u][1], 3: g[u][2]}
+                        return sum((gm[conn[m]] * Nl[p][m] for m in range(nPe)), Poly())
+                    return Poly.const(cst[u])
+
+                I = Interp(repo, extra_builtins={"callable": callable})
+                from ..femchain import fe_hook_full
+
+                def hook(fn, args, kwargs, log=log):
+                    if isinstance(fn, FuncInfo) and fn.name == "add_lineLoad" and fn.cls is not None and fn.cls is not bcls:
+                        log.setdefault("super", []).append((args[1], args[2]))
+                        return None
+                    return fe_hook_full(fn, args, kwargs)
+
+                I.call_hook = hook
+                tag = f"{frame_name}:{kind}:{','.join(unknowns)}"
+                r.instance(fn=f.qualname)
+                try:
+                    I.call_function(f, [nodes_arg, vals, list(unknowns)], self_obj=obj)
+                except XRaise as e:
+                    r.fail(f.qualname, tag, f.file, f.lineno, "Beam.add_lineLoad", f"{tag}: {e}")
+                    continue
+                # total per element dof, over every route
+                tot = [Poly() for _ in range(n)]
+                bad = None
+                for sv, su in log.get("super", []):
+                    # the generic integrator (R9.2): Lagrange consistent load of each forwarded unknown with the forwarded intensity
+                    for k, u in enumerate(su):
+                        v = sv[k]
+                        if kind == "nodal":
+                            if not isinstance(v, XArray):
+                                bad = f"unknown '{u}' is forwarded to the generic integrator without its nodal intensity"
+                                continue
+                            gm = {7: v.data[0], 5: v.data[1], 3: v.data[2]}
+                            fp = [sum((gm[conn[m]] * Nl[p][m] for m in range(nPe)), Poly()) for p in range(nPg)]
+                        else:
+                            fp = [Poly.const(v)] * nPg
+                        for m in range(nPe):
+                            tot[m * dof_n + allunk.index(u)] = tot[m * dof_n + allunk.index(u)] + sum((wJ[p] * fp[p] * Nl[p][m] for p in range(nPg)), Poly())
+                for _, nv, nd, nu in log.get("neumann", []):
                     nv, nd = XArray.from_nested(nv), XArray.from_nested(nd)
-                    n = dof_n * nPe
-                    if list(nu) != her or nv.size != n * len(her) or nd.size != n * len(her):
-                        bad = f"Neumann condition for unknowns {list(nu)} with {nv.size} values / {nd.size} dofs; expected {her} and {n * len(her)}"
-                    else:
-                        for k, u in enumerate(her):
-                            row = allunk.index(u)
-                            for j in range(n):
-                                if kind == "nodal":
-                                    gm = {7: g[u][0], 5: g[u][1], 3: g[u][2]}
-                                    fp = [sum((gm[conn[m]] * Nl[p][m] for m in range(nPe)), Poly()) for p in range(nPg)]
-                                else:
-                                    fp = [Poly.const(cst[u])] * nPg
-                                want = sum((wJ[p] * fp[p] * Nb[p][row][j] for p in range(nPg)), Poly())
-                                got = nv.data[j * len(her) + k]
-                                if not is_zero(got - want):
-                                    bad = f"unknown '{u}', element dof {j}: {got!r}, expected sum_p wJ_p f_{u}(x_p) N_beam[p,{row},{j}] = {want!r}"
-                                if nd.data[j * len(her) + k] != Lbl("asm", j):
-                                    bad = f"unknown '{u}', element dof {j} is paired with {nd.data[j * len(her) + k]!r}"
-            if bad:
-                r.fail(f.qualname, tag, f.file, f.lineno, "Beam.add_lineLoad", f"{tag}: {bad}")
-            else:
-                r.ok(f"{tag}: each unknown integrated with its own intensity")
+                    if nv.size != nd.size:
+                        bad = f"Neumann condition with {nv.size} values for {nd.size} dofs"
+                        continue
+                    for val, lab in zip(nv.data, nd.data):
+                        if not isinstance(lab, Lbl) or lab.v[0] != "asm":
+                            bad = f"a Hermitian force is paired with {lab!r}, not with an element assembly dof"
+                            continue
+                        tot[lab.v[1]] = tot[lab.v[1]] + val
+                if bad is None:
+                    for j in range(n):
+                        want = Poly()
+                        for u in unknowns:
+                            gi = allunk.index(u)
+                            blk = 3 * (gi // 3)
+                            for p in range(nPg):
+                                want = want + wJ[p] * intensity(u, p) * sum((P[gi % 3][l] * Nbeam[p][blk + l][j] for l in range(3)), Poly())
+                        d = tot[j] - want
+                        if frame_name == "inclined":
+                            # c^2 + s^2 = 1
+                            d = d.subs({"s": Poly.var("s")})
+                            d = _reduce_cs(d)
+                        if not is_zero(d):
+                            bad = f"element dof {j}: total nodal load {tot[j]!r}, expected sum_p wJ_p f(x_p) sum_l P[g,l] N_local[p,l,{j}] = {want!r}"
+                            break
+                if bad:
+                    msg = f"{tag}: {bad}"
+                    if frame_name == "inclined":
+                        msg += " (member whose axis is not a global axis: the load is applied along the LOCAL axes / the Hermitian fields are not loaded by the other global component)"
+                    r.fail(f.qualname, f"{frame_name}:{kind}:{','.join(sorted(unknowns))}", f.file, f.lineno, "Beam.add_lineLoad", msg)
+                else:
+                    r.ok(f"{tag}: global-component consistent load")
+
+
+def _reduce_cs(p):
+    """normal form modulo s^2 = 1 - c^2"""
+    out = Poly()
+    for mono, coef in p.t.items():
+        md = dict(mono)
+        e = md.pop("s", 0)
+        term = Poly.const(coef)
+        for v, k in md.items():
+            term = term * Poly.var(v) ** k
+        half, rem = divmod(e, 2)
+        term = term * (Poly.const(1) - Poly.var("c") ** 2) ** half * (Poly.var("s") ** rem)
+        out = out + term
+    if any(dict(m).get("s", 0) >= 2 for m in out.t):
+        return _reduce_cs(out)
+    return out
 
 
 def run(ctx):
